@@ -56,9 +56,10 @@ def order_probes(ck):
         k = rng.choice(["class", "def", "multiclass", "defset", "defvar", "defm", "anon", "container", "container"]) if depth > 0 else \
             rng.choice(["class", "def", "multiclass", "defvar", "defm", "anon"])
         if k == "class":
-            return "class %s%s%s" % (fresh("C"), rng.choice(["", "<int p>", "<int p, string q = \"s\">"]), rng.choice([";", " : Base;", " { int f = 1; }"]))
+            return "class %s%s%s" % (fresh("C"), rng.choice(["", "<int p>", "<int p, string q = \"s\">"]),
+                                     rng.choice([";", " : Base;", " { int f = 1; }", " : Base { let f = 1; int g = 2; let f = 3; let h{3-0} = 1; let h{7-4} = 2; int k = f; }"]))
         if k == "def":
-            return "def %s : Base%s" % (fresh("d"), rng.choice([";", " { int g = 2; }"]))
+            return "def %s : Base%s" % (fresh("d"), rng.choice([";", " { int g = 2; }", " { let h{0} = 1; let f = 2; let h{1} = 0; int own = 1; let own = 2; let f = 4; }"]))
         if k == "anon":
             return "def : Base;"
         if k == "multiclass":
@@ -87,7 +88,7 @@ def order_probes(ck):
         return "defset list<Base> %s = { %s }" % (fresh("S"), " ".join(body))
 
     for _ in range(150 if quick else 5000):
-        parts = ["class Base { int f = 0; }", "multiclass MM { def _m : Base; }"] + [decl(3) for _ in range(rng.choice([2, 3, 5]))]
+        parts = ["class Base { int f = 0; bits<8> h; }", "multiclass MM { def _m : Base; }"] + [decl(3) for _ in range(rng.choice([2, 3, 5]))]
         texts.append("\n".join(parts) + "\n")
     outs = core.impl(["ws " + json.dumps({"files": {"/main.td": t}, "root": "/main.td", "queries": [["document_symbol", "/main.td"]]}) for t in texts], tag="ord18")
     nontriv = set()
@@ -108,9 +109,14 @@ def order_probes(ck):
         if not sorted_ok(syms):
             bad = [(x["name"], x["range"][0]) for x in syms]
         else:
-            for x in syms:
-                if x["kind"] == "Defset" and not sorted_ok(x["children"]):
-                    bad = [(c["name"], c["range"][0]) for c in x["children"]]
+            # children: the defs of a defset, and the template arguments and fields (declared or overridden) of a record, each at the
+            # position of its first declaring / overriding identifier
+            todo = list(syms)
+            while todo and not bad:
+                x = todo.pop()
+                if not sorted_ok(x["children"]):
+                    bad = [(x["name"], x["range"][0])] + [(c["name"], c["range"][0]) for c in x["children"]]
+                todo.extend(x["children"])
         if bad:
             ck.fail(["C18", "order", core.sig_hash(t)], "outline entries are not in source order: %s" % bad[:8],
                     {"files": {"/main.td": t}, "root": "/main.td", "detail": {"probe": "order"}}, json.dumps(bad)[:300], "ascending positions")
